@@ -305,6 +305,9 @@ class Ref:
         x = self.ev(n[1], env)
         if x is None:
             raise Unspecified("null on the left of in")
+        if isinstance(x, (list, dict)):
+            # unary tests are defined for the scalar input values of decision tables; what `[1,2] in ([[1,2]], 5)` means is not settled
+            raise Unspecified("list or context on the left of in")
         res = False
         for t in n[2]:
             r = self.in_test(x, t, env)
@@ -462,8 +465,10 @@ class Ref:
                 raise
         if not isinstance(f, Closure):
             return None
-        if len(args) != len(f.params):
-            raise Unspecified("arity mismatch")
+        if len(args) < len(f.params):
+            return None      # an invocation that leaves a parameter without a value is an error: null is the error value
+        if len(args) > len(f.params):
+            raise Unspecified("more arguments than parameters")
         frame = {}
         for (p, ty), a in zip(f.params, args):
             if ty is not None:
